@@ -41,13 +41,36 @@ class Backend:
 
             self.mod, self.torch = mod, torch
 
-    def array(self, values, dtype):
+    def array(self, values, dtype, layout='C'):
+        """Same logical values / shape / dtype in every layout: 'C' contiguous, 'T' a transposed (axis-reversed) view of a
+        contiguous array, 'F' Fortran order, 'S' a strided view (every other row of a larger array)."""
         a = np.asarray(values).astype(dtype)
+        if self.name == 'jax' or layout == 'C' or a.ndim == 0 or a.size == 0:
+            if self.name == 'numpy':
+                return a
+            if self.name == 'jax':
+                return self.jnp.asarray(a)
+            return self.torch.from_numpy(np.ascontiguousarray(a)) if a.ndim else self.torch.tensor(a.item(), dtype=self.tdtype(dtype))
         if self.name == 'numpy':
-            return a
-        if self.name == 'jax':
-            return self.jnp.asarray(a)
-        return self.torch.from_numpy(np.ascontiguousarray(a)) if a.ndim else self.torch.tensor(a.item(), dtype=self.tdtype(dtype))
+            if layout == 'T':
+                out = np.ascontiguousarray(a.T).T
+            elif layout == 'F':
+                out = np.asfortranarray(a)
+            else:
+                big = np.zeros((2 * a.shape[0], *a.shape[1:]), dtype=a.dtype)
+                big[::2] = a
+                out = big[::2]
+        else:
+            t = self.torch.from_numpy(np.ascontiguousarray(a))
+            rev = tuple(reversed(range(t.ndim)))
+            if layout in ('T', 'F'):
+                out = t.permute(*rev).contiguous().permute(*rev)
+            else:
+                big = self.torch.zeros((2 * t.shape[0], *t.shape[1:]), dtype=t.dtype)
+                big[::2] = t
+                out = big[::2]
+        assert tuple(out.shape) == tuple(a.shape) and np.array_equal(self.to_numpy(out), a)
+        return out
 
     def tdtype(self, dtype):
         return getattr(self.torch, str(np.dtype(dtype)))
@@ -94,7 +117,8 @@ def leaf_values(shape, dtype, seed):
 def check_case(ctx, B, dsl, leafspecs, nil, ns):  # noqa: C901, PLR0912, PLR0915
     """leafspecs: list of (shape, dtype) per leaf in construction order."""
     U, R = e1.universe()
-    case = {'backend': B.name, 'tree': dsl, 'leaves': [[list(s), d] for s, d in leafspecs], 'nil': nil, 'ns': ns}
+    leafspecs = [(*ls, 'C') if len(ls) == 2 else tuple(ls) for ls in leafspecs]  # (shape, dtype, memory layout)
+    case = {'backend': B.name, 'tree': dsl, 'leaves': [[list(s), d, lay] for s, d, lay in leafspecs], 'nil': nil, 'ns': ns}
     key = lambda o: f'{PROP}:{B.name}:{o}'  # noqa: E731
     ctx.count()
     shape_tree, _ = gen.build(dsl, U)
@@ -104,7 +128,7 @@ def check_case(ctx, B, dsl, leafspecs, nil, ns):  # noqa: C901, PLR0912, PLR0915
 
     if n > len(leafspecs) or any(type(x) is not Leaf for x in flat.leaves):
         return  # an unregistered custom object / None is a leaf here: not a tree of arrays
-    arrays = [B.array(leaf_values(s, d, i), d) for i, (s, d) in enumerate(leafspecs[:n])]
+    arrays = [B.array(leaf_values(s, d, i), d, lay) for i, (s, d, lay) in enumerate(leafspecs[:n])]
     # None leaves (none_is_leaf) cannot be raveled: only trees whose leaves are all Leaf objects
     if any(x is None for x in flat.leaves):
         return
@@ -116,7 +140,7 @@ def check_case(ctx, B, dsl, leafspecs, nil, ns):  # noqa: C901, PLR0912, PLR0915
         ctx.violation('ravel-raises', key('ravel-raises'), case, repr(r))
         return
     vec, unravel = r[1]
-    dts = [d for _, d in leafspecs[:n]]
+    dts = [d for _, d, _ in leafspecs[:n]]
     if n == 0:
         if not B.is_array(vec) or tuple(vec.shape) != (0,):
             ctx.violation('empty-ravel', key('empty-ravel'), case, repr(vec))
@@ -234,6 +258,12 @@ def run_shard(ctx):
                             continue
                         specs = list(zip(shp, dts))
                         check_case(ctx, B, dsl, specs, nil, ns)
+                        # the same case with every eligible leaf in a non-contiguous memory layout
+                        if bname != 'jax' and any(len(sh) >= 1 and int(np.prod(sh)) > 1 for sh in shp):
+                            for lay in ('T', 'F', 'S'):
+                                if lay != 'S' and not any(len(sh) >= 2 and int(np.prod(sh)) > 1 for sh in shp):
+                                    continue
+                                check_case(ctx, B, dsl, [(sh, d, lay) for sh, d in specs], nil, ns)
                         if len(ctx.samples) < 4 and nleaf == 2:
                             ctx.sample({'backend': bname, 'tree': gen.dsl_repr(dsl), 'leaves': [[list(s), d] for s, d in specs]})
 
@@ -241,7 +271,7 @@ def run_shard(ctx):
 def replay(case, ctx):
     c = case['case']
     B = Backend(c['backend'])
-    check_case(ctx, B, c['tree'], [(tuple(s), d) for s, d in c['leaves']], c['nil'], c['ns'])
+    check_case(ctx, B, c['tree'], [(tuple(ls[0]), *ls[1:]) for ls in c['leaves']], c['nil'], c['ns'])
 
 
 _ = STAR
